@@ -49,7 +49,7 @@ def all_cases(hook_alphabet=HOOKS, maxhooks=3):
 
 def extra_cases():
     """sub-interface and registry-hook variants (smaller hook alphabet)"""
-    hooklists = [()] + [t for L in (1, 2) for t in itertools.product(['none', 'value', 'raise'], repeat=L)]
+    hooklists = [()] + [t for L in (1, 2) for t in itertools.product(['none', 'value', 'raise', 'raise_si'], repeat=L)]
     for custom in CUSTOMS:
         for conform in ('absent', 'none', 'value', 'raises'):
             for provided in (False, True):
@@ -263,6 +263,8 @@ def execute(program, ctx, mode):
                 return FALSY_HOOK
             if kind == 'raise':
                 raise E2(h.label)
+            if kind == 'raise_si':
+                raise StopIteration(h.label)      # (e.g. a bare next() on an empty iterator inside the hook)
             if kind == 'pop_last':
                 if adapter_hooks:
                     adapter_hooks.pop()
@@ -333,6 +335,8 @@ def execute(program, ctx, mode):
                     return ('ret', FALSY_HOOK)
                 if k == 'raise':
                     return ('raise', 'E2')
+                if k == 'raise_si':
+                    return ('raise', 'StopIteration')
                 if k == 'pop_last':
                     if lst:
                         lst.pop()
